@@ -593,13 +593,13 @@ fn check_type(ty: &Ty, tier: Tier, cnt: &Cnt, coll: &Collector) {
     };
     let mut truncated = false;
     let mut vals = values(ty, &defs, tier.pick(400, 3000), &mut truncated);
-    if let (Ty::Int(t), Tier::Thorough) = (ty, tier) {
+    if let Ty::Int(t) = ty {
         // primitive integers: every value of the 8- and 16-bit types, every 2^k, 2^k - 1, 2^k + 1
         // (and their negations) of the wider ones
         let t = *t;
         let (lo, hi) = (IntTy::min(t), IntTy::max(t));
         let mut xs: Vec<i128> = vec![];
-        if t.bits() <= 16 {
+        if t.bits() <= tier.pick(8, 16) {
             xs.extend(lo..=hi);
         } else {
             for k in 0..=64u32 {
@@ -717,6 +717,61 @@ fn check_type(ty: &Ty, tier: Tier, cnt: &Cnt, coll: &Collector) {
             Err(p) => coll.push(Violation::new("C09", format!("L/{site_ty}/identity"), "identity-eval-rust-panic", v.show(), case("identity", bits01(&canon)), p)),
         }
     }
+    // typed setters and typed output conversions of the evaluator (primitive types)
+    if let Ty::Int(_) | Ty::Bool = ty {
+        for v in &vals {
+            let canon = v.bits(&defs);
+            let v2 = v.clone();
+            let gpr = &gp;
+            // (setter result bits via the identity program, typed conversion of the output)
+            let r = catch(move || -> Result<(Vec<bool>, String), String> {
+                let mut ev = gpr.evaluator();
+                match &v2 {
+                    Val::Bool(b) => ev.set_bool(*b),
+                    Val::Int(x, IntTy::U8) => ev.set_u8(*x as u8),
+                    Val::Int(x, IntTy::U16) => ev.set_u16(*x as u16),
+                    Val::Int(x, IntTy::U32) => ev.set_u32(*x as u32),
+                    Val::Int(x, IntTy::U64) => ev.set_u64(*x as u64),
+                    Val::Int(x, IntTy::Usize) => ev.set_usize(*x as usize),
+                    Val::Int(x, IntTy::I8) => ev.set_i8(*x as i8),
+                    Val::Int(x, IntTy::I16) => ev.set_i16(*x as i16),
+                    Val::Int(x, IntTy::I32) => ev.set_i32(*x as i32),
+                    Val::Int(x, IntTy::I64) => ev.set_i64(*x as i64),
+                    _ => return Err("not primitive".into()),
+                }
+                ev.set_bool(false);
+                let out = ev.run().map_err(|e| format!("run: {e:?}"))?;
+                let typed = match &v2 {
+                    Val::Bool(_) => bool::try_from(out.clone()).map(|x| (x as i128).to_string()),
+                    Val::Int(_, IntTy::U8) => u8::try_from(out.clone()).map(|x| x.to_string()),
+                    Val::Int(_, IntTy::U16) => u16::try_from(out.clone()).map(|x| x.to_string()),
+                    Val::Int(_, IntTy::U32) => u32::try_from(out.clone()).map(|x| x.to_string()),
+                    Val::Int(_, IntTy::U64) => u64::try_from(out.clone()).map(|x| x.to_string()),
+                    Val::Int(_, IntTy::Usize) => usize::try_from(out.clone()).map(|x| x.to_string()),
+                    Val::Int(_, IntTy::I8) => i8::try_from(out.clone()).map(|x| x.to_string()),
+                    Val::Int(_, IntTy::I16) => i16::try_from(out.clone()).map(|x| x.to_string()),
+                    Val::Int(_, IntTy::I32) => i32::try_from(out.clone()).map(|x| x.to_string()),
+                    Val::Int(_, IntTy::I64) => i64::try_from(out.clone()).map(|x| x.to_string()),
+                    _ => return Err("not primitive".into()),
+                }
+                .map_err(|e| format!("typed conversion: {e:?}"))?;
+                let raw = Vec::<bool>::try_from(out).map_err(|e| format!("raw conversion: {e:?}"))?;
+                Ok((raw, typed))
+            });
+            cnt.spellings.fetch_add(1, Ordering::Relaxed);
+            let expect_typed = match v {
+                Val::Bool(b) => (*b as i128).to_string(),
+                Val::Int(x, _) => x.to_string(),
+                _ => String::new(),
+            };
+            let site = format!("L/typed-api/{site_ty}");
+            let case = json!({"kind": "literal", "program": text, "type": site_ty, "value": v.show(), "spelling_kind": "typed setter / typed output conversion"});
+            match r {
+                Ok(Ok((raw, typed))) if raw == canon && typed == expect_typed => {}
+                other => coll.push(Violation::new("C09", site, "typed-setter-or-conversion-differs", v.show(), case, format!("{other:?}; expected bits {} and value {expect_typed}", bits01(&canon)))),
+            }
+        }
+    }
     if distinct.len() >= 2 {
         cnt.distinct.fetch_add(vals.len() as u64, Ordering::Relaxed);
     }
@@ -736,7 +791,7 @@ pub fn run(tier: Tier) -> i32 {
         coverage: json!({
             "evaluations": cnt.spellings.load(Ordering::Relaxed),
             "distinct_nontrivial": cnt.distinct.load(Ordering::Relaxed),
-            "rule": "all types of nesting depth <= 2 over {bool,u8,i8,u16,i64,usize,(u32,i16,i32,u64 flat)} with arrays of length 0..2, tuples of arity 0..2, structs with unsorted field declarations, enums with unit / 1- / 2-field / empty-tuple variants; per type all values over {MIN,-1,0,1,MAX}^k (capped, cap reported); thorough adds depth-3 types (every depth-2 type inside arrays of 1-3 and tuples), arrays of 3/4/7 and 3-tuples of every primitive, and for primitive integers EVERY value of the 8- and 16-bit types and every +-(2^k-1, 2^k, 2^k+1) of the wider ones; per value every spelling: printed text, suffixed text, trailing commas, garbage, expressions; programmatic Literals with permuted / duplicated / missing / extra struct fields, enum payload arity +-1, out-of-range and wrongly suffixed numbers, ArrayRepeat, Range (incl. reversed, unspecified) at top level and one level down; each through parse_arg, literal_arg, Evaluator::set_literal, parse_output and the identity program; oracle = the harness's own encoder; non-trivial = values of types with >= 2 distinct encodings",
+            "rule": "all types of nesting depth <= 2 over {bool,u8,i8,u16,i64,usize,(u32,i16,i32,u64 flat)} with arrays of length 0..2, tuples of arity 0..2, structs with unsorted field declarations, enums with unit / 1- / 2-field / empty-tuple variants; per type all values over {MIN,-1,0,1,MAX}^k (capped, cap reported); for primitive integers every value of the 8-bit types (thorough: 16-bit too) and every +-(2^k-1, 2^k, 2^k+1) of the wider ones; thorough adds depth-3 types (every depth-2 type inside arrays of 1-3 and tuples), arrays of 3/4/7 and 3-tuples of every primitive, and for primitive integers EVERY value of the 8- and 16-bit types and every +-(2^k-1, 2^k, 2^k+1) of the wider ones; per value every spelling: printed text, suffixed text, trailing commas, garbage, expressions; typed evaluator setters (set_u8 ... set_i64, set_bool, set_usize) and typed output conversions for every value of the primitive types; programmatic Literals with permuted / duplicated / missing / extra struct fields, enum payload arity +-1, out-of-range and wrongly suffixed numbers, ArrayRepeat, Range (incl. reversed, unspecified) at top level and one level down; each through parse_arg, literal_arg, Evaluator::set_literal, parse_output and the identity program; oracle = the harness's own encoder; non-trivial = values of types with >= 2 distinct encodings",
             "samples": [
                 {"type": "S3", "value": "S3 {a: true, m: -1i8, z: 255u8}", "spelling": "Struct(\"S3\", [(\"z\", ..), (\"m\", ..), (\"a\", ..)]) (fields-reversed)", "expect": "refused, or accepted with the canonical bits"},
                 {"type": "E", "value": "E::C(true, 1u8)", "spelling": "Enum(\"E\", \"C\", Tuple([True]))", "expect": "refused"},
